@@ -69,6 +69,13 @@ def run(chk, binary):
         text = rng.choice(TEXTS)
         k = rng.randint(2, 8)
         cmds = [complete_cmd(rng) for _ in range(k)]
+        if rng.random() < 0.15:
+            # what a finished insert session may leave behind (an open undo record, the place where it began) is cleaned up
+            # at the end of an argument: it has to be gone inside an argument as well
+            cmds = ([complete_cmd(rng)] if rng.random() < 0.4 else []) + [rng.choice(["iab<esc>", "Axy<esc>", "3liXY<esc>", "A_suffix<esc>", "oab<esc>", "cwnew<esc>"])]
+            cmds += [rng.choice(["w", "b", "0", "$", "j", "k", "l"]) for _ in range(rng.randint(0, 2))]
+            cmds += [rng.choice([".", "iZ<esc>", "b", "db", "B", "cbQ<esc>", "x", "dB"])]
+            cmds += [rng.choice(["u", "x", "u", "."])] + (["u"] if rng.random() < 0.3 else [])
         start = rng.randint(0, max(0, len(text) - 1)) if rng.random() < 0.5 else 0
         seqs.append((text, cmds, start))
     probe = server_map(binary, [{"op": "keys", "text": t, "cursor": s, "keys": ["".join(c)], "pre_snm": True, "keep_mode": True} for t, c, s in seqs])
